@@ -684,6 +684,23 @@ def run(ctx):
             import traceback
             ctx.fail({"component": "handle-history", "op": "raised", "what": type(e).__name__}, case,
                      "a legal handle history raised %s: %s\n%s" % (type(e).__name__, e, traceback.format_exc()[-1200:]))
+    # ---- histories with APPENDS (wave 6) ----------------------------------------------------------------------------------
+    import shutil
+    for h in range(30 if ctx.quick() else 300):
+        spec = gen_append_history(rng)
+        ctx.case(spec)
+        ctx.count("append_history.ops", "+".join(st["op"] for st in spec["steps"]))
+        root = os.path.join(ctx.scratch, "ah%d" % h)
+        try:
+            problems = run_append_history(root, spec)
+        except Exception as e:      # noqa
+            import traceback
+            problems = ["the history raised %s: %s\n%s" % (type(e).__name__, e, traceback.format_exc()[-800:])]
+        shutil.rmtree(root, ignore_errors=True)
+        if os.path.exists(root + ".parquet"):
+            os.unlink(root + ".parquet")
+        if problems:
+            ctx.fail({"component": "append", "op": "append-history", "scheme": spec["scheme"]}, spec, "; ".join(problems)[:1500])
     pq.close()
     ctx.extra["footer_deltas_seen"] = sorted(deltas_seen)
     small = set(range(-8, 9))
@@ -736,6 +753,109 @@ def handle_history(root, df, us, finish):
     return problems
 
 
+def gen_append_history(rng):
+    """APPENDS in the history (wave 6): write(append=True) with / without custom_metadata=, pf.write_row_groups after a handle-level
+    update, frames with / without .attrs, after key-values of various sizes (a multi-kB 'blob' among them) were set and removed"""
+    scheme = rng.choice(["simple", "simple", "hive"])
+    d0 = {"keep": "k" * rng.choice([1, 40])}
+    if rng.random() < 0.7:
+        d0["blob"] = "v" * rng.choice([300, 3000, 9000])
+    if rng.random() < 0.4:
+        d0[b"bin"] = b"\xff\x00" * 5
+    steps = []
+    for _ in range(rng.choice([2, 3, 4])):
+        op = rng.choice(["handle_update_append", "handle_update_append", "append", "append_cm", "update_file"])
+        u = {}
+        for k in rng.sample(["blob", "keep", "extra", "other"], rng.choice([1, 2])):
+            u[k] = rng.choice([None, None, "n" * rng.choice([1, 50, 4000])])
+        st = {"op": op, "attrs": rng.choice([None, None, {"a": rng.randrange(9)}, {"unit": "m", "n": [1, 2]}])}
+        if op != "append":
+            st["u"] = enc_dict(u)
+        steps.append(st)
+    return {"stage": "append-history", "scheme": scheme, "attrs0": rng.choice([None, {"a": 0}]), "initial": enc_dict(d0), "steps": steps}
+
+
+def run_append_history(root, spec):
+    """-> list of problems.  After every step: the file is framed and readable, rows = old + new, every key the step did not name
+    is unchanged (the library's own 'pandas' entry excepted for appends, which may re-dump it)"""
+    import numpy as np
+    import pandas as pd
+    from fastparquet import ParquetFile, write, update_file_custom_metadata
+    from fastparquet.util import update_custom_metadata
+
+    def frame(i, attrs):
+        df = pd.DataFrame({"x": np.arange(3, dtype="int64") + 10 * i, "s": ["r%d" % i] * 3})
+        if attrs:
+            df.attrs = dict(attrs)
+        return df
+    simple = spec["scheme"] == "simple"
+    path = root + ".parquet" if simple else root
+    kw = {} if simple else {"file_scheme": "hive"}
+    write(path, frame(0, spec["attrs0"]), custom_metadata=dec_dict(spec["initial"]), **kw)
+    foot = path if simple else os.path.join(path, "_metadata")
+    nrows = 3
+    problems = []
+    for i, st in enumerate(spec["steps"], 1):
+        before = dict(kv_of(ParquetFile(path).fmd))
+        u = dec_dict(st["u"]) if "u" in st else {}
+        named = set(eb(k) for k in u)
+        new_rows = 0
+        try:
+            if st["op"] == "update_file":
+                update_file_custom_metadata(foot, dict(u))
+                want_named = "set"
+            elif st["op"] == "handle_update_append":
+                pf = ParquetFile(path)
+                update_custom_metadata(pf, dict(u))
+                pf.write_row_groups(frame(i, st["attrs"]))
+                new_rows, want_named = 3, "set"
+            elif st["op"] == "append":
+                write(path, frame(i, st["attrs"]), append=True, **kw)
+                new_rows, want_named = 3, "none"
+            else:
+                write(path, frame(i, st["attrs"]), append=True, custom_metadata=dict(u), **kw)
+                new_rows, want_named = 3, "either"      # whether an append merges custom_metadata= or ignores it is not the property's subject
+        except Exception as e:      # noqa
+            problems.append("step %d (%s) raised %s: %s" % (i, st["op"], type(e).__name__, str(e)[:200]))
+            break
+        nrows += new_rows
+        b = open(foot, "rb").read()
+        if b[-4:] != b"PAR1" or b[:4] != b"PAR1":
+            problems.append("step %d (%s): the file is not framed by the magic" % (i, st["op"]))
+            break
+        try:
+            pf2 = ParquetFile(path)
+            after = dict(kv_of(pf2.fmd))
+            got_rows = len(pf2.to_pandas())
+        except Exception as e:      # noqa
+            problems.append("step %d (%s): unreadable afterwards (%d bytes, trailer %s): %s: %s" % (
+                i, st["op"], len(b), b[-8:].hex(), type(e).__name__, str(e)[:150]))
+            break
+        if got_rows != nrows:
+            problems.append("step %d (%s): %d rows, expected %d" % (i, st["op"], got_rows, nrows))
+        skip = {b"pandas"} if new_rows else set()
+        for k in (set(before) | set(after)) - named - skip:
+            if before.get(k, "<absent>") != after.get(k, "<absent>"):
+                problems.append("step %d (%s, frame attrs %r) changed key %r, which it did not name: %r -> %r" % (
+                    i, st["op"], st["attrs"], k, _short_v(before.get(k, "<absent>")), _short_v(after.get(k, "<absent>"))))
+        for k0, v0 in u.items():
+            k = eb(k0)
+            want = [before.get(k, "<absent>")] if want_named == "none" else []
+            if want_named in ("set", "either"):
+                want.append("<absent>" if v0 is None else eb(v0))
+            if want_named == "either":
+                want.append(before.get(k, "<absent>"))
+            if after.get(k, "<absent>") not in want:
+                problems.append("step %d (%s): named key %r is %r afterwards" % (i, st["op"], k, _short_v(after.get(k, "<absent>"))))
+        if problems:
+            break
+    return problems
+
+
+def _short_v(v):
+    return v if (v is None or isinstance(v, str)) else (v[:24], len(v))
+
+
 def enc_dict(d):
     return [[isinstance(k, str), eb(k).hex(), None if v is None else isinstance(v, str), None if v is None else eb(v).hex()]
             for k, v in d.items()]
@@ -779,6 +899,22 @@ def replay(rep):
     if rep.get("kind") == "no-failing-input-found":
         print(json.dumps(rep, indent=1)[:6000])
         return 1
+    if rep["case"].get("stage") == "append-history":
+        import shutil
+        import tempfile
+        tmp = tempfile.mkdtemp(prefix="verif-C16-replay-", dir="/tmp")
+        try:
+            problems = run_append_history(os.path.join(tmp, "ds"), rep["case"])
+            print("history: %s, initial %r" % (rep["case"]["scheme"], [x[1][:16] for x in rep["case"]["initial"]]))
+            for st in rep["case"]["steps"]:
+                print("  ", st["op"], "attrs", st["attrs"], "update", [[x[1][:16], None if x[3] is None else len(x[3]) // 2] for x in st.get("u", [])])
+            for p in problems:
+                print("PROPERTY FAILS:", p)
+            if not problems:
+                print("ok")
+            return 1 if problems else 0
+        finally:
+            shutil.rmtree(tmp, ignore_errors=True)
     if rep["case"].get("stage") == "handle-history":
         import shutil
         import tempfile
